@@ -48,6 +48,10 @@ ENTRIES = [
     ("Gfa", "line", [], ["l"]),
     ("Gfa", "try_get_line", [], ["l"]),
     ("Gfa", "rm", [], ["gfa_line"]),
+    # line objects built from text: their field reads are text
+    ("Gfa", "_register_line", ["@gfa_line"], []),
+    ("Gfa", "_unregister_line", ["@gfa_line"], []),
+    ("Gfa", "_search_duplicate", ["@gfa_line"], []),
     ("Line", "__new__", ["data"], []),
     ("Line", "__init__", ["data"], []),
     ("Line", "set", [], ["fieldname"]),
@@ -122,7 +126,23 @@ class Taint:
         self.box = {}
         self.key = {}
         self.match = {}
+        self.line = {}
         self.source = {}    # (func, name) -> (caller func, site text)
+        # attributes that only ever hold a defaultdict (no KeyError on read)
+        dd, other = set(), set()
+        for m in self.repo.modules.values():
+            for n in ast.walk(m.tree):
+                if isinstance(n, ast.Assign):
+                    for t in n.targets:
+                        if isinstance(t, ast.Attribute):
+                            v = n.value
+                            if isinstance(v, ast.Call) and (dotted(v.func) or
+                                                            "").split(".")[-1] \
+                                    == "defaultdict":
+                                dd.add(t.attr)
+                            else:
+                                other.add(t.attr)
+        self.defaultdict_attrs = dd - other
         self.returns = {}   # FuncInfo -> kind of the returned value
         self.callmap = {}   # FuncInfo -> {id(call node): [callees]}
         for f in reach:
@@ -154,7 +174,15 @@ class Taint:
                     return "key"
                 if e.id in self.match.get(g, ()):
                     return "match"
+                if e.id in self.line.get(g, ()):
+                    return "line"
                 g = g.parent
+            return None
+        if isinstance(e, ast.Attribute):
+            # a field of a line object that was built from text
+            if self.kind_of(f, e.value) == "line" and \
+                    not e.attr.startswith("_"):
+                return "text"
             return None
         if isinstance(e, ast.Subscript):
             k = self.kind_of(f, e.value)
@@ -180,6 +208,12 @@ class Taint:
             if dotted(fn) in ("re.match", "re.search", "re.fullmatch") and \
                     len(e.args) > 1 and self.kind_of(f, e.args[1]):
                 return "match"
+            if dotted(fn) == "re.finditer" and len(e.args) > 1 and \
+                    self.kind_of(f, e.args[1]):
+                return "matches"
+            if dotted(fn) == "re.findall" and len(e.args) > 1 and \
+                    self.kind_of(f, e.args[1]):
+                return "box"
             if isinstance(fn, ast.Attribute) and \
                     fn.attr in ("group", "groups") and \
                     self.kind_of(f, fn.value) == "match":
@@ -244,6 +278,8 @@ class Taint:
                     tgt = tgt.elts[1]
                 if k in ("text", "box"):
                     ch |= self.bind_targets(f, tgt, "text")
+                elif k == "matches":
+                    ch |= self.bind_targets(f, tgt, "match")
             elif isinstance(n, ast.With):
                 for item in n.items:
                     if item.optional_vars is not None:
@@ -473,7 +509,10 @@ class SiteWalker(exc.GuardWalker):
                     not isinstance(node.value, (ast.Dict,)):
                 ok = None
                 ikey = exc.key_of(node.slice)
-                if self.in_try({"KeyError"}):
+                if isinstance(node.value, ast.Attribute) and \
+                        node.value.attr in T.defaultdict_attrs:
+                    ok = "%s is a defaultdict" % node.value.attr
+                elif self.in_try({"KeyError"}):
                     ok = "inside try/except catching KeyError"
                 elif ikey and ikey in facts.keychecked:
                     ok = "dominated by a membership test of %s" % ikey
@@ -548,10 +587,11 @@ def run(ctx):
         entries.append(f)
         for p in text:
             star = p.startswith("*")
-            p = p.lstrip("*")
+            obj = p.startswith("@")
+            p = p.lstrip("*@")
             if p not in f.params + f.kwonly + [f.vararg]:
                 ctx.anchor("%s.%s parameter %s" % (clspath, fname, p), None)
-            seeds.append((f, p, "box" if star else "text"))
+            seeds.append((f, p, "line" if obj else "box" if star else "text"))
         for p in keys:
             if p not in f.params + f.kwonly:
                 ctx.anchor("%s.%s parameter %s" % (clspath, fname, p), None)
